@@ -272,10 +272,41 @@ def ev_atm1(case, rec, shared):
     rec.sample(case)
 
 
+# --- two threads reducing DIFFERENT observations at the same time ----------
+from gpmc import threads as _thr
+import datetime as _dtm
+import numpy as _tnp
+import geodepy.constants as _tgc
+import geodepy.transform as _tgt
+import geodepy.convert as _tgv
+import geodepy.geodesy as _tgg
+import geodepy.statistics as _tgs
+import geodepy.survey as _tsv
+import geodepy.angles as _tga
+_V1 = [[1e-4, 2e-5, -1e-5], [2e-5, 4e-4, 3e-5], [-1e-5, 3e-5, 9e-4]]
+_V2 = [[9e-3, -2e-3, 1e-3], [-2e-3, 5e-3, 2e-3], [1e-3, 2e-3, 7e-3]]
+T_CALLS = {
+    'fvc_a': lambda: (lambda: _tsv.first_vel_corrn(1117.8517, (281.781, 79.393), 6.8, 938.5, 58.0)),
+    'fvc_b_co2': lambda: (lambda: _tsv.first_vel_corrn(5000.0, (281.781, 79.393), 31.5, 1010.0, 20.0, None, 450.0, 0.850)),
+    'fvc_wet': lambda: (lambda: _tsv.first_vel_corrn(1000.0, (275.3, 79.1), 20.0, 1013.25, None, 15.0)),
+    'group_m1': lambda: (lambda: _tsv.group_refractivity(0.85, -1.0, 1013.25, 0.0)),
+    'group_m2': lambda: (lambda: _tsv.group_refractivity(0.85, -2.0, 1013.25, 0.0)),
+    'phase': lambda: (lambda: _tsv.phase_refractivity(0.658, 25.0, 990.0, 12.0, 500)),
+    'params': lambda: (lambda: _tsv.first_vel_params(0.850, 14985259, None, 10.0)),
+    'va_conv': lambda: (lambda: _tsv.va_conv(84.9, 21.5, 1.6, 1.4)),
+    'inst_ht': lambda: (lambda: _tsv.precise_inst_ht([89.0, 92.0, 90.0, 91.0], 0.5, 0.1)),
+    'radiations': lambda: (lambda: _tsv.radiations(500000.0, 6000000.0, 45.5, 120.0, 0.2, 0.9996)),
+    'joins': lambda: (lambda: _tsv.joins(500000.0, 6000000.0, 500100.0, 5999900.0)),
+}
+_tg, _te = _thr.make(T_CALLS, ['geodepy/survey.py'], 'survey:threads',
+                     quick=['fvc_a', 'fvc_b_co2', 'group_m1', 'group_m2', 'va_conv', 'inst_ht'], triple=('fvc_a', 'fvc_b_co2', 'phase'))
+
+
 SUBCHECKS = [
     Sub('plane', gen_plane, ev_plane, chunk=2, floor=200, guard=True, envs=3),
     Sub('vaconv', gen_va, ev_va, chunk=4, floor=30, guard=True, envs=2),
     Sub('atmos', gen_atm, ev_atm, chunk=1, floor=100, guard=True, envs=2),
+    Sub('threads', _tg, _te, chunk=1, floor=3, poison=False),
 ]
 
 
